@@ -542,9 +542,45 @@ def rule_memo18(repo, tier):
                      ['pypose.function.geometry'], floor=10)
 
 
+@guarded
+def rule_unit18(repo, tier):
+    """Dimensional analysis of pixel2point with two base units: pixels (u, v, fx, fy, cx, cy, skew) and metres (depth, the returned point).  Run once per
+    base unit (the other one counted as dimensionless): every sum combines equal units and every component of the result is a length.  An inverse
+    written as (u - cx) / fx - skew * y_n adds a pure number to a pixel count: whatever the values, it cannot be the inverse of the projection."""
+    from .c09 import _units
+    from fractions import Fraction
+    res = RuleResult('C18.UNIT', 'pixel2point is dimensionally homogeneous in pixels and in metres: sums combine equal units, the three components of the returned '
+                     'point are lengths (pixel exponent 0, metre exponent 1)', floor=2)
+    f = repo.func(GEO, 'pixel2point')
+    rets = returns_of(f.node)
+    if len(rets) != 1:
+        raise AnalysisError('C18.UNIT: pixel2point has %d returns' % len(rets))
+    v = inline_straight(f.node, upto=rets[0]).value(rets[0].value)
+    pp_ = f.pos_params
+    if len(pp_) < 3:
+        raise AnalysisError('C18.UNIT: pixel2point signature changed')
+    for base, env, want in (('pixel', {pp_[0]: Fraction(1), pp_[1]: Fraction(0), pp_[2]: Fraction(1)}, Fraction(0)),
+                            ('metre', {pp_[0]: Fraction(0), pp_[1]: Fraction(1), pp_[2]: Fraction(0)}, Fraction(1))):
+        problems = []
+        u = _units(v, env, problems)
+        res.inst({'function': f.fq, 'base unit': base, 'unit exponent of the result': str(u), 'expected': str(want), 'mismatches': len(problems)}, (f.fq, base))
+        seen = set()
+        for node, msg in problems:
+            if msg in seen:
+                continue
+            seen.add(msg)
+            res.add(Finding('C18.UNIT', f, 'pixel2point, counting %ss: %s' % (base, msg.replace('u^', base + '^')), node=rets[0], construct='unit|%s|%s' % (base, msg[:80])))
+        if u not in ('unknown', None) and u != want and not problems:
+            res.add(Finding('C18.UNIT', f, 'pixel2point returns a quantity of unit %s^%s; a point has %s^%s' % (base, u, base, want), node=rets[0],
+                            construct='unit of the result|' + base))
+        if u == 'unknown':
+            res.unresolved += 1
+    return res
+
+
 def rules(repo, tier):
     from ..optional import rule_optional
     from ..mode import mode_rules
     from ..callsig import rule_callsig
     from ..docsig import rule_docsig
-    return [rule_idx(repo, tier), rule_sign(repo, tier), rule_fwd(repo, tier), rule_memo18(repo, tier), rule_self(repo, tier), rule_rankidx(repo, tier), rule_count(repo, tier), rule_errnorm(repo, tier), rule_kentries(repo, tier), rule_optional(repo, 'C18.OPT', ['pypose.function.geometry'])] + mode_rules(repo, 'C18', ['pypose.function.geometry']) + [rule_callsig(repo, 'C18.SIG', ['pypose.function.geometry']), rule_docsig(repo, 'C18.DOC', ['pypose.function.geometry'])]
+    return [rule_idx(repo, tier), rule_sign(repo, tier), rule_fwd(repo, tier), rule_memo18(repo, tier), rule_self(repo, tier), rule_rankidx(repo, tier), rule_count(repo, tier), rule_errnorm(repo, tier), rule_kentries(repo, tier), rule_unit18(repo, tier), rule_optional(repo, 'C18.OPT', ['pypose.function.geometry'])] + mode_rules(repo, 'C18', ['pypose.function.geometry']) + [rule_callsig(repo, 'C18.SIG', ['pypose.function.geometry']), rule_docsig(repo, 'C18.DOC', ['pypose.function.geometry'])]
